@@ -300,19 +300,22 @@ AggregateOffsetFree ==
       LET ms == [i \in 1..cfg.E |-> J.mean[i][r][k]]
           vs == [i \in 1..cfg.E |-> VarAbs(par.lb[i][k])]
           cs == Shifted(ms, par.off[k])
-      IN /\ AggVar(ms, vs) = AggVar(cs, vs)
-         /\ AggVar(ms, vs) = MixtureVar(cs, vs)
-         /\ SLe(SMean(vs), AggVar(ms, vs))
-         /\ (cfg.E = 1 => AggVar(ms, vs) = vs[1])      \* one member: the aggregate is that member
+          av == AggVar(ms, vs)
+      IN /\ av = AggVar(cs, vs)
+         /\ av = MixtureVar(cs, vs)
+         /\ SLe(SMean(vs), av)
+         /\ (cfg.E = 1 => av = vs[1])      \* one member: the aggregate is that member
 
 (* vacuity guards: generic members really differ; agreeing members are far from zero (>= 32) and agree to 2^-10 of it *)
 MembersDiffer == Done /\ cfg.cls = "generic" => \E i, j \in 1..cfg.E : par.bm[i] # par.bm[j] \/ par.Wm[i] # par.Wm[j]
 MembersAgreeFarFromZero ==
   Done /\ cfg.cls = "agree" /\ inp.kind # "permember" =>
-    LET A == Aggregate(TheJoint, cfg.E, cfg.O) IN
-    \A r \in 1..A.shape[1], k \in 1..cfg.O :
-      /\ SLe(I(32), QAbs(A.mean[r][k]))
-      /\ SLe(QMul(I(1024), A.dev[r][k]), QAbs(A.mean[r][k]))
-      /\ \A i \in 1..cfg.E : par.lb[i][k] <= -8
-      /\ \E i \in 1..cfg.E, k2 \in 1..cfg.O : par.lb[i][k2] = -10000
+    LET J == TheJoint IN
+    /\ \A r \in 1..J.shape[2], k \in 1..cfg.O :
+         LET ms == [i \in 1..cfg.E |-> J.mean[i][r][k]]
+             m  == QAbs(SMean(ms))
+         IN /\ SLe(I(32), m)
+            /\ \A i \in 1..cfg.E : SLe(QMul(I(1024), QAbs(SSub(ms[i], SMean(ms)))), m)
+    /\ \A i \in 1..cfg.E, k \in 1..cfg.O : par.lb[i][k] <= -8
+    /\ \E i \in 1..cfg.E, k \in 1..cfg.O : par.lb[i][k] = -10000
 =============================================================================
